@@ -2,8 +2,30 @@
 From Coq Require Import List NArith String.
 From TG.Gen Require Import GenTokens GenGrammar GenGrammarCert.
 From TG.Model Require Import Chars Lexer Prep Tree ParserPrims GInterp.
-From TG.Proofs Require Import LexBasics ParserTile GTile LookProg ParserMsgs ParserTop.
+From TG.Proofs Require Import LexBasics ParserTile GTile LookProg BldAn ParserMsgs ParserTop.
 Import ListNotations.
+
+(** THE PROPERTY (termination + panic-freedom), for the grammar regenerated from the current sources: on EVERY text
+    the model of syntax::parse returns a tree and an error list -- it neither runs out of fuel (no loop without
+    progress, no left recursion) nor reaches a panic: no failing `assert!(eat_if(k))`, no `expect("error token without
+    message")`, no GreenNodeBuilder assertion (finish_node on an empty stack, stale checkpoint, finish() with other
+    than one root), no ill-typed local.  Proof: three reflective checks evaluated by vm_compute on
+    gen/GenGrammar.v + gen/GenGrammarCert.v ([chk_all]: A-look + A-prog; [bchk_all]: A-bld) and their soundness
+    theorems (LookProgSound.term_main, SafeSound.safe_sound) + the tiling invariant of the primitives. *)
+Theorem C02_total : forall txt : text, exists fuel t errs st, parse_with fuel grammar_prog grammar_entry txt = ParseOk t errs st.
+Proof. exact grammar_total. Qed.
+Check C02_total : forall txt : text, exists fuel t errs st, parse_with fuel grammar_prog grammar_entry txt = ParseOk t errs st.
+Print Assumptions C02_total.
+
+(** the same for EVERY program, certificate and signature table accepted by the reflective checks *)
+Theorem C02_total_checked : forall (p : prog) (ce : cert) (sigs : list fsig) (entry : nat),
+  chk_all p ce entry = true -> bchk_all p sigs entry = true ->
+  forall txt : text, exists fuel t errs st, parse_with fuel p entry txt = ParseOk t errs st.
+Proof. exact parse_total. Qed.
+Check C02_total_checked : forall (p : prog) (ce : cert) (sigs : list fsig) (entry : nat),
+  chk_all p ce entry = true -> bchk_all p sigs entry = true ->
+  forall txt : text, exists fuel t errs st, parse_with fuel p entry txt = ParseOk t errs st.
+Print Assumptions C02_total_checked.
 
 (** Termination (A-prog): for the grammar regenerated from the current sources, on EVERY text, the parser does not run
     out of fuel for some fuel -- every loop iteration consumes a token or exits, there is no left recursion.
